@@ -6,7 +6,7 @@
 EXTENDS GatewayAuth, Json, SequencesExt
 
 VARIABLE case
-Init == case \in AuthCases \/ case \in ScopeCases \/ case \in ResumeCases
+Init == case \in AuthCases \/ case \in ScopeCases \/ case \in ResumeCases \/ case \in SeqCases
 Next == UNCHANGED case
 Spec == Init /\ [][Next]_case
 
@@ -29,6 +29,16 @@ ResumeScope == IsResume => ScopeProp(Id2, case.reg, case.path, Acc2,
 RevocationEffective == IsResume => RevocationProp(case.cert, case.reg, case.change, case.present,
                                                   Resumes(case.cert, case.reg), Acc2)
 
+\* sequences: the stateless property on every step, with the outcome of the (possibly remembering) procedure
+IsSeq    == case.kind = "seq"
+SeqSound == IsSeq => \A k \in 1..Len(case.steps) :
+                LET st == case.steps[k]  acc == AcceptedAs(st.cert, case.reg) IN
+                /\ AuthProp(st.cert, case.reg, acc)
+                /\ ScopeProp(st.cert, case.reg, st.path, acc, ServedAt(case.steps, case.reg, k))
+                /\ CompleteProp(st.cert, case.reg, st.path, acc, ServedAt(case.steps, case.reg, k))
+
+ASSUME ndJsonSerialize("cases_seq.ndjson", SetToSeq(SeqCases))
+ASSUME PrintT(<<"seq", [n |-> Cardinality(SeqCases)]>>)
 ASSUME ndJsonSerialize("cases_auth.ndjson",  SetToSeq(AuthCases))
 ASSUME ndJsonSerialize("cases_scope.ndjson", SetToSeq(ScopeCases))
 ASSUME ndJsonSerialize("cases_resume.ndjson", SetToSeq(ResumeCases))
